@@ -52,8 +52,32 @@ def typed(ty, v):
     return {"i32": i32, "u32": u32, "ai": ai, "bool": boolean}[ty](v)
 
 
+def strip_named(e):
+    """["named", ty, v] stands for a reference to `const n: ty = v;` - for the model it IS the typed value v"""
+    if isinstance(e, list):
+        if e and e[0] == "named":
+            return strip_named(e[2])
+        return [strip_named(x) for x in e]
+    return e
+
+
+def lift_named(e, prefix, decls):
+    """replace every ["named", ty, v] by ["ident", name] and record (name, ty, text of v) in decls"""
+    if isinstance(e, list):
+        if e and e[0] == "named":
+            name = "%s_%d" % (prefix, len(decls))
+            decls.append((name, e[1], render(e[2])))
+            return ["ident", name]
+        return [lift_named(x, prefix, decls) for x in e]
+    return e
+
+
 def render(e):
     k = e[0]
+    if k == "ident":
+        return e[1]
+    if k == "named":
+        return render(e[2])
     if k == "lit":
         kind, n = e[1], e[2]
         if kind == "I32":
@@ -198,7 +222,7 @@ MODEL_FN = {
 
 def model_request(c):
     fn, as_ = MODEL_FN[c.pos]
-    rq = {"fn": fn, "e": c.e, "ty": c.ty if c.pos not in ("modconst", "modnot") else None}
+    rq = {"fn": fn, "e": strip_named(c.e), "ty": c.ty if c.pos not in ("modconst", "modnot") else None}
     if c.pos == "modas":
         rq["e"] = c.e[2]          # ["as", ty, arg]: the model takes the argument
         rq["ty"] = c.e[1]
@@ -242,7 +266,11 @@ def build_program(cases):
         head.append("var<private> p_%s: array<%s, %d>;" % (t, WGSL_TY[t], n + 1))
     body = []
     for k, c in enumerate(cases):
-        x = render_top(c.e)
+        decls = []
+        lifted = lift_named(c.e, "n%d" % k, decls)
+        for name, nty, text in decls:
+            head.append("const %s: %s = %s;" % (name, WGSL_TY[nty], text))
+        x = render_top(lifted)
         t = c.ty
         if c.pos == "store":
             body.append("  p_%s[%d] = %s;" % (t, k, x))
@@ -264,7 +292,7 @@ def build_program(cases):
             sel = {"i32": "i32(rt[%d])", "u32": "rt[%d]"}[t] % (k % 8)
             body.append("  switch %s { case %s: { rt[0] = %du; } default: { } }" % (sel, x, k))
         elif c.pos == "arraysize":
-            head.append("var<private> a%d: array<i32, %s>;" % (k, render(c.e)))
+            head.append("var<private> a%d: array<i32, %s>;" % (k, render(lifted)))
         else:
             raise ValueError(c.pos)
     src = "\n".join(head) + "\n@compute @workgroup_size(1)\nfn main() {\n" + "\n".join(body) + "\n}\n"
